@@ -137,13 +137,26 @@ func c19RunDirect(p c19RetryPlan) c19RetryObs {
 		obs.CancelNs = 0
 	}
 	t0 = time.Now()
-	err := certmagic.VerifDoWithRetry(ctx, zap.NewNop(), f)
+	var err error
+	panicked := false
+	func() {
+		defer func() {
+			if r := recover(); r != nil {
+				panicked = true
+				err = fmt.Errorf("panic: %v", r)
+			}
+		}()
+		err = certmagic.VerifDoWithRetry(ctx, zap.NewNop(), f)
+	}()
 	te := rel()
 	mu.Lock()
 	defer mu.Unlock()
 	obs.Te = te
 	var nr certmagic.ErrNoRetry
 	switch {
+	case panicked:
+		obs.Result = 8
+		obs.Note = err.Error()
 	case err == nil:
 		obs.Result = 0
 	case errors.Is(err, context.Canceled):
@@ -270,7 +283,7 @@ func c19RetryPlans(tier string, r *rand.Rand) [][]c19RetryPlan {
 			batch = append(batch, c19RetryPlan{Kind: "direct", TableMs: tb, Steps: append(plain(k), c19Step{Out: "ctx", CancelAtMs: 10})})
 			// cancellation during the pause after attempt k
 			s := plain(k + 1)
-			s[k].CancelAfterPct = 25 + r.Intn(35)
+			s[k].CancelAfterPct = 20 + r.Intn(30)
 			batch = append(batch, c19RetryPlan{Kind: "direct", TableMs: tb, Steps: append(s, c19Step{Out: "ok"})})
 		}
 		// context cancelled before the call (Go's select may pick either case)
@@ -349,9 +362,13 @@ func c19RunJobs(p c19JobPlan) []c19JobSnap {
 		return r
 	}
 	var out []c19JobSnap
+	unsettled := false
 	observe := func(s c19JobSnap) {
 		// quiescent when every live worker is inside a job that has not been told to finish
 		deadline := time.Now().Add(1500 * time.Millisecond)
+		if unsettled {
+			deadline = time.Now().Add(50 * time.Millisecond) // already off the rails: do not wait long again
+		}
 		for {
 			_, _, active := vjm.Snapshot()
 			if active == len(running()) {
@@ -359,6 +376,7 @@ func c19RunJobs(p c19JobPlan) []c19JobSnap {
 				break
 			}
 			if time.Now().After(deadline) {
+				unsettled = true
 				break
 			}
 			time.Sleep(100 * time.Microsecond)
@@ -527,7 +545,7 @@ func runC19(tier string, seed int64, outdir string, replay string) error {
 		pj, _ := json.Marshal(p)
 		w.Hist("kind=" + class)
 		w.Hist(fmt.Sprintf("retry: attempts=%d", len(o.Atts)))
-		w.Hist(fmt.Sprintf("retry: result=%s", map[int]string{0: "nil", 1: "canceled-by-f", 2: "noretry", 3: "ctx-canceled", 7: "other"}[o.Result]))
+		w.Hist(fmt.Sprintf("retry: result=%s", map[int]string{0: "nil", 1: "canceled-by-f", 2: "noretry", 3: "ctx-canceled", 7: "other", 8: "panic"}[o.Result]))
 		w.Hist(fmt.Sprintf("retry: table_len=%d", len(p.TableMs)))
 		if cancelled {
 			w.Hist("retry: cancelled")
@@ -649,8 +667,16 @@ func runC19(tier string, seed int64, outdir string, replay string) error {
 				defer func() { <-sem }()
 				if batch[i].Kind == "async-obtain" {
 					res[i] = c19RunAsync(batch[i], i)
-				} else {
+					return
+				}
+				// a cancelled run that returns late may just have been descheduled: run it again
+				// (a real delay repeats itself)
+				for try := 0; try < 3; try++ {
 					res[i] = c19RunDirect(batch[i])
+					if o := res[i]; !(o.Result == 3 && o.CancelNs >= 0 && o.Te-o.CancelNs > int64(20*time.Millisecond) &&
+						(len(o.Atts) == 0 || o.Te-o.Atts[len(o.Atts)-1].End > int64(20*time.Millisecond))) {
+						break
+					}
 				}
 			}(i)
 		}
